@@ -380,8 +380,22 @@ def gen_spec(rnd, pairs=False, nfiles=None):
 
 
 def gen_long(rnd, n, nosep=False):
-    l = break_pairs([gen_cp(rnd) for _ in range(n)])
-    return [c for c in l if c != 0x2F] if nosep else l
+    l = [gen_cp(rnd) for _ in range(n)]
+    if nosep:
+        l = [c for c in l if c != 0x2F]
+    return break_pairs(l)          # AFTER removing separators: deleting a `/` between a high and a low surrogate makes a pair
+
+
+def spec_has_pair(spec):
+    """some string of the report contains an adjacent (high, low) surrogate pair: outside the property (Appendix A)"""
+    strs = [spec["root"]] + [x for x in (spec.get("uuid"), spec.get("timestamp")) if isinstance(x, list)]
+    if spec.get("repository"):
+        strs += [x for x in spec["repository"] if isinstance(x, list)]
+    if isinstance(spec.get("version"), list):
+        strs.append(spec["version"])
+    for f in spec["files"]:
+        strs += [f[0], f[1], f[2]] + [m[0] for m in f[4]]
+    return any(has_pair(x) for x in strs)
 
 
 def ladder_specs(ctx):
@@ -904,6 +918,9 @@ def correspond(ctx):
     dist["ladder"] = {}
     for label, spec in ladder_specs(ctx):
         evals += 1
+        if spec_has_pair(spec):
+            dist["ladder"][label] = "skipped (generator produced a surrogate pair)"
+            continue
         try:
             bad = oracle_report(spec)
         except RecursionError:
@@ -911,7 +928,7 @@ def correspond(ctx):
             continue
         dist["ladder"][label] = "ok" if not bad else "FAILS"
         if bad:
-            small = shrink_big(spec, lambda s: bool(oracle_report(s)))
+            small = shrink_big(spec, lambda s: (not spec_has_pair(s)) and bool(oracle_report(s)))   # shrinking must not create a pair
             fails.append({"input": {"stream": "report", "spec": small, "ladder": label, "shrunk_from": spec_summary(spec)},
                           "observed": oracle_report(small) or bad, "required": "valid JSON in both forms, same value, lossless read-back, stable rewrite"})
     if not h4.configuration_is_default():
